@@ -36,6 +36,25 @@ var (
 	vInfeasible bool
 )
 
+// vLoadFrom (re)initialises the replay state from one file (used when several
+// sampled path models are replayed in one test process).
+func vLoadFrom(path string) *vReplayFile {
+	vMu.Lock()
+	vSeen = map[string]int{}
+	vFailed = nil
+	vInfeasible = false
+	vMu.Unlock()
+	vRep = &vReplayFile{Values: map[string]interface{}{}, Params: map[string]int{}}
+	b, err := os.ReadFile(path)
+	if err != nil {
+		panic(err)
+	}
+	if err := json.Unmarshal(b, vRep); err != nil {
+		panic(err)
+	}
+	return vRep
+}
+
 func vLoad() *vReplayFile {
 	if vRep != nil {
 		return vRep
